@@ -10,8 +10,15 @@
     is executable text processing on the canonical type text; it is exercised by the correspondence run on the full
     MySQL type list (case `types-mysql`), not proved.
   JSON well-formedness of the envelope skeleton is checked by the harness (every Go document is parsed as JSON).
+  * `export_of_the_reference_schema` — **from scripts** (Proofs/AvroScripts.lean): for every script of any length the
+    reference engine accepts (MySQL reader model, column-safe vocabulary), `ArvoSchema` of the loaded model is, document by
+    document, what the *reference schema* says: one document per selected table of the reference schema, in its order,
+    named after the table, whose fields are `Spec.Exports.avroFields` of the reference table — one field per reference
+    column in table order, typed by the class of its type text, nullable exactly when it has a DEFAULT option.  Nothing
+    else of the loaded state (actions, position maps, previous attributes, indexes, keys) reaches the export.
 -/
 import SqlizeModel.Impl.Avro
+import SqlizeModel.Proofs.AvroScripts
 
 namespace Sqlize.C15
 open Sqlize Sqlize.Avro
@@ -37,5 +44,30 @@ theorem nullable_iff_default (c : Column) :
     field c = "{\"name\":" ++ jsonStr c.name ++ ",\"type\":" ++
       (if hasDefault c then nullable (kindOf c.cur.typeText).toJson else (kindOf c.cur.typeText).toJson) ++ "}" := by
   simp [field, nullable]
+
+open Sqlize.Spec in
+/-- from scripts: the export is the export of the reference schema -/
+theorem export_of_the_reference_schema (rc : Bool) (ss : List Stmt) (db : Spec.DB) (hs : ss.all Stmt.colSafe = true)
+    (he : execAll rc [] ss = some db) (need : List String) :
+    ∃ m, ReaderMysql.run {} ss = .ok m ∧
+      arvoSchema .mysql m need =
+        (Exports.selectDB db need).map (fun t => Avro.schemaOf t.name (Exports.avroFields t)) :=
+  avro_of_schema rc ss db hs he need
+
+-- non-vacuity: a script with an ALTER history (a column added in the middle, one dropped, a default) meets the hypotheses;
+-- two tables, one selected
+open Sqlize.Spec in
+def exScript : List Stmt :=
+  [.createTable "users" 0 [{ name := "id", typ := "int(11)" }, { name := "tmp", typ := "text" },
+                           { name := "price", typ := "decimal(10,2)", opts := [{ kind := .default, dflt := .num "0" }] }] [],
+   .createTable "logs" 0 [{ name := "at", typ := "datetime" }] [],
+   .addColumn "users" { name := "flag", typ := "tinyint(1)" } (.after "id"),
+   .dropColumn "users" "tmp"]
+open Sqlize.Spec in
+example : exScript.all Stmt.colSafe = true ∧ (execAll true [] exScript).isSome = true := by decide
+#guard (do let m ← ReaderMysql.run {} exScript; pure (arvoSchema .mysql m ["users"])).toOption ==
+  (Spec.execAll true [] exScript).map (fun db => (Spec.Exports.selectDB db ["users"]).map (fun t => Avro.schemaOf t.name (Spec.Exports.avroFields t)))
+#guard ((Spec.execAll true [] exScript).map (fun db => (Spec.Exports.selectDB db ["users"]).map Spec.Exports.avroFields)) ==
+  some ["{\"name\":\"id\",\"type\":\"int\"},{\"name\":\"flag\",\"type\":\"bool\"},{\"name\":\"price\",\"type\":[\"null\",{\"connect.name\":\"org.apache.kafka.connect.data.Decimal\",\"connect.parameters\":{\"connect.decimal.precision\":\"10\",\"scale\":\"2\"},\"connect.version\":1,\"logicalType\":\"decimal\",\"precision\":10,\"scale\":2,\"type\":\"bytes\"}]}"]
 
 end Sqlize.C15
